@@ -229,7 +229,7 @@ def analyse(script, trace):
     fails = []
     stats = {"events_created": 0, "events_discarded": 0, "event_deliveries": 0, "static_deliveries": 0,
              "cuts": 0, "reconnects": 0, "flips": 0, "quiesced": 0, "points": 0, "commands_ok": 0,
-             "multi_fragment_series": 0, "unsol_fragments": 0}
+             "multi_fragment_series": 0, "unsol_fragments": 0, "reconnect_in_confirm_wait": 0}
 
     def fail(clause, text):
         if len(fails) < 12:
@@ -255,8 +255,9 @@ def analyse(script, trace):
     in_series_frags = 0
     final_db, final_seen = {}, {}
     outcome = None
-    cut_pending = False
     connected_once = False
+    waiting = None         # position of the outstation's last confirm wait that has not been resolved
+    replaced = []          # positions at which the master established a NEW connection during such a wait
 
     for pos, l in enumerate(trace):
         t = l.split()
@@ -281,7 +282,6 @@ def analyse(script, trace):
                 cmd_marks.append((int(op[1]), int(op[2]), pos))
             elif op[0] == "cut":
                 stats["cuts"] += 1
-                cut_pending = True
         elif k in ("updinfo", "nopoint"):
             if not pending:
                 fail("harness|updinfo", "updinfo line without an update op")
@@ -353,7 +353,13 @@ def analyse(script, trace):
             if t[1] == "connected":
                 if connected_once:
                     stats["reconnects"] += 1
+                    if waiting is not None:
+                        replaced.append(pos)
+                        stats["reconnect_in_confirm_wait"] += 1
+                        waiting = None
                 connected_once = True
+        elif k == "oi":
+            waiting = pos if t[1] in ("solwait", "unsolwait") else None
         elif k == "cutfired":
             stats["cuts"] += 1
         elif k == "flipfired":
@@ -421,6 +427,17 @@ def analyse(script, trace):
             else:
                 fail("fabricated|invented", "handler delivery `%s` is not %s, nor a value of any point" % (raw, where))
 
+    def circumstance(e, until):
+        """known finding F18 needs this circumstance: a response was awaiting its confirm when the master
+        established a new connection, while the event was in the buffer"""
+        if any(e.mpos < r and (until is None or r < until) for r in replaced):
+            return "|reconnect-during-confirm-wait"
+        return ""
+
+    cleared_at = {}
+    for pos, eid in cleared:
+        cleared_at.setdefault(eid, pos)
+
     # an event may be released (event_cleared) only after a response that carried it reached the
     # handler: the master confirms after the handler has run
     for pos, eid in cleared:
@@ -430,7 +447,7 @@ def analyse(script, trace):
         ty, idx, e = events[eid]
         first = delivered_events.get((ty, idx, event_proj(ty, e)))
         if first is None or first > pos:
-            fail("events|released-undelivered", "event %d (%s, %s) was released by a confirm before any response carrying it reached the handler" % (eid, describe((ty, idx)), e.what))
+            fail("events|released-undelivered" + circumstance(e, pos), "event %d (%s, %s) was released by a confirm before any response carrying it reached the handler" % (eid, describe((ty, idx)), e.what))
 
     # ---- after quiescence -------------------------------------------------------------------------
     has_quiesce = any(op[0] == "quiesce" for op in ops)
@@ -466,7 +483,7 @@ def analyse(script, trace):
             if eid in discarded:
                 continue
             if (ty, idx, event_proj(ty, e)) not in delivered_events:
-                fail("events|undelivered", "event %d (%s, %s) was created, never reported as discarded by overflow, and never reached the handler as an event"
+                fail("events|undelivered" + circumstance(e, cleared_at.get(eid)), "event %d (%s, %s) was created, never reported as discarded by overflow, and never reached the handler as an event"
                      % (eid, describe((ty, idx)), e.what))
     return fails, stats
 
@@ -541,8 +558,9 @@ class C02(Prop):
         # points: several types, several classes
         if kind == "wide":
             ty = rng.choice(["ai", "ctr", "fctr", "aos", "bi", "dbbi"])
-            start = rng.choice([0, 0, 1, 250, 65500])
-            for i in range(rng.range(20, 40)):
+            cnt = rng.range(20, 40)
+            start = rng.choice([0, 0, 1, 250, 65536 - cnt])
+            for i in range(cnt):
                 points.append((ty, start + i, rng.choice(["1", "2", "3"])))
         ntypes = rng.range(3, 6)
         tys = list(TYPES)
@@ -551,10 +569,14 @@ class C02(Prop):
             base = rng.choice([0, 0, 0, 1, 5, 254, 65530])
             for i in range(rng.range(1, 3)):
                 idx = base + i * rng.choice([1, 1, 2])
-                if not any(p[0] == ty and p[1] == idx for p in points):
+                if idx <= 65535 and not any(p[0] == ty and p[1] == idx for p in points):
                     points.append((ty, idx, rng.choice(["1", "2", "3", "1", "2", "3", "none"])))
         if not any(p[0] == "aos" for p in points) and rng.chance(1, 2):
             points.append(("aos", rng.below(3), rng.choice(["1", "2", "3"])))
+        if rng.chance(1, 4):
+            # half-open connections: the outstation's side of a dead connection stays open for a while,
+            # so the master's new connection can arrive first (the server then replaces the session)
+            cfg["linger"] = rng.choice([30, 60, 200])
         for ty, idx, cls in points:
             ops.append(["add", ty, idx, cls])
             values[(ty, idx)] = DEFAULTS[ty]
